@@ -41,8 +41,7 @@ open Gotlcp.Spec
 
 /-- the parameters of the tree under test -/
 def P : Replay.Params :=
-  { floor := Facts.dtlcp.replayFloor, newCeil := Facts.dtlcp.replayNewCeil,
-    spanCeil := Facts.dtlcp.replaySpanCeil, default := Facts.dtlcp.defaultReplayWindowSize }
+  Model.Replay.treeParams Facts.dtlcp.defaultReplayWindowSize
 
 def parseInt (s : String) : Option Int :=
   if s.startsWith "-" then (s.drop 1).toNat?.map (fun n => -(n : Int)) else s.toNat?.map Int.ofNat
